@@ -224,6 +224,8 @@ def run_tg_case(case):
                 raise Violation("invalid-result", "Textgrid.crop result does not validate")
     if any((t["minT"], t["maxT"]) != (spec["minT"], spec["maxT"]) for t in spec["tiers"]):
         classes.append("tiers_with_own_span")
+    if not spec["tiers"]:
+        classes.append("textgrid_without_tiers")
     classes = sorted(set(classes))
     return {"classes": classes, "nontrivial": bool(classes)}
 
@@ -322,6 +324,17 @@ def tier_cases(draw):
     style = draw(gen.STYLES_ARITH)
     spec = draw(st.one_of(gen.interval_tier(style=style, max_segments=7), gen.point_tier(style=style, dups=True)))
     a, b = draw(window_for([spec["entries"]], style, spec["maxT"]))
+    if spec["type"] == "point" and style != "grid" and draw(st.integers(0, 4)) == 0:
+        # two same-labelled points closer than the library's fuzzy entry equality, one window edge between (or on) them
+        t0 = draw(st.integers(1, 40)) / 10 + 0.05
+        d = t0 * 3e-10
+        spec["entries"] = sorted([e for e in spec["entries"] if not t0 - 0.01 < e[0] < t0 + 0.01] + [[t0, "a"], [t0 + d, "a"]])
+        spec["maxT"] = max(spec["maxT"], t0 + 1.0)
+        spec["minT"] = min(spec["minT"], t0)
+        if draw(st.booleans()):
+            a, b = draw(st.sampled_from([t0 + d / 2, t0 + d])), t0 + draw(st.sampled_from([0.5, 1.0]))
+        else:
+            a, b = max(spec["minT"], t0 - 0.25) if t0 - 0.25 < t0 else 0.0, draw(st.sampled_from([t0, t0 + d / 2]))
     pre = draw(st.one_of(st.none(), st.none(), st.fixed_dictionaries({"delete": st.one_of(st.none(), st.integers(0, 7))})))
     return {"tier": spec, "a": a, "b": b, "mode": draw(st.sampled_from(MODES)), "rebase": draw(st.booleans()), "pre": pre}
 
@@ -333,11 +346,13 @@ def tg_cases(draw):
     a, b = draw(window_for([t["entries"] for t in spec["tiers"]], style, spec["maxT"]))
     if draw(st.integers(0, 5)) == 0:
         a, b = spec["minT"], spec["maxT"]  # the textgrid's own extent
+    if draw(st.integers(0, 11)) == 0:
+        spec = dict(spec, tiers=[])  # a textgrid with a span and no tier: the result still spans the window
     mode = draw(st.sampled_from(list(MODES) + ["lax"]))
     if mode == "lax" and draw(st.booleans()):
         # a window starting inside an interval of one tier (that tier's lax result starts before the window)
         ivs = [e for t in spec["tiers"] if t["type"] == "interval" for e in t["entries"] if e[1] - e[0] > 0]
-        if ivs:
+        if ivs and spec["tiers"]:
             e = draw(st.sampled_from(ivs))
             a2 = (e[0] + e[1]) / 2
             if a2 < b:
